@@ -27,31 +27,40 @@ Max2(a, b) == IF a > b THEN a ELSE b
 SatAdd(a, b) == Min2(a + b, MAXU)
 
 (* ---- window.go: a window is W slots, slot W is the most recent second ---- *)
+(* The window operators are written slot by slot over a reader Get(j) of the old window, so that Apalache can
+   fold them to constants on recorded rows (no functions, no quantifiers); the function-valued operators used
+   by TLC below are defined from the very same slot operators. *)
 
 (* Roll: shift left by `since` slots, zero fill; everything is gone once since >= W *)
+\* @type: (Int => Int, Int, Int) => Int;
+RollAt(Get(_), i, since) == IF since <= W /\ i + since <= W THEN Get(i + since) ELSE 0
+
+(* slot i of the window the next block starts from: rolled by the elapsed seconds, with the parent's
+   consumption added (Update: saturating) into the slot of the parent's second if it is still inside *)
+\* @type: (Int => Int, Int, Int, Int) => Int;
+NextSlot(Get(_), i, last, since) ==
+  IF since < W /\ i = W - since THEN SatAdd(RollAt(Get, i, since), last) ELSE RollAt(Get, i, since)
+
+\* @type: (Int => Int, Int, Int, Int) => Int;
+SlotOrZero(Get(_), i, last, since) == IF i <= W THEN NextSlot(Get, i, last, since) ELSE 0
+(* Sum: the code adds slot by slot and returns MAXU on the first overflow; for non-negative slots that is the
+   exact sum capped at MAXU *)
+\* @type: (Int => Int, Int, Int) => Int;
+TotalOf(Get(_), last, since) ==
+  Min2(  SlotOrZero(Get, 1, last, since) + SlotOrZero(Get, 2, last, since) + SlotOrZero(Get, 3, last, since)
+       + SlotOrZero(Get, 4, last, since) + SlotOrZero(Get, 5, last, since) + SlotOrZero(Get, 6, last, since)
+       + SlotOrZero(Get, 7, last, since) + SlotOrZero(Get, 8, last, since) + SlotOrZero(Get, 9, last, since)
+       + SlotOrZero(Get, 10, last, since), MAXU)
+
+(* function-valued forms (window = function 1..W -> word) *)
 \* @type: (Int -> Int, Int) => (Int -> Int);
-Roll(w, since) == [i \in 1..W |-> IF since <= W /\ i + since <= W THEN w[i + since] ELSE 0]
-
-(* Update: saturating add into one slot *)
+Roll(w, since) == [i \in 1..W |-> RollAt(LAMBDA j : w[j], i, since)]
 \* @type: (Int -> Int, Int, Int) => (Int -> Int);
-Update(w, slot, units) == [i \in 1..W |-> IF i = slot THEN SatAdd(w[i], units) ELSE w[i]]
-
-\* @type: (Int -> Int, Int) => Int;
-At(w, i) == IF i <= W THEN w[i] ELSE 0
-(* Sum: the code adds slot by slot and returns MAXU on the first overflow; for non-negative slots
-   that is the exact sum capped at MAXU *)
-\* @type: (Int -> Int) => Int;
-Sum(w) == Min2(At(w, 1) + At(w, 2) + At(w, 3) + At(w, 4) + At(w, 5)
-             + At(w, 6) + At(w, 7) + At(w, 8) + At(w, 9) + At(w, 10), MAXU)
-
-(* the window the next block starts from: rolled by the elapsed seconds, with the parent's consumption
-   added into the slot of the parent's second if that second is still inside the window *)
-\* @type: (Int -> Int, Int, Int) => (Int -> Int);
-NextWindow(w, last, since) ==
-  IF since < W THEN Update(Roll(w, since), W - since, last) ELSE Roll(w, since)
-
+NextWindow(w, last, since) == [i \in 1..W |-> NextSlot(LAMBDA j : w[j], i, last, since)]
 \* @type: (Int -> Int, Int, Int) => Int;
-Total(w, last, since) == Sum(NextWindow(w, last, since))
+Total(w, last, since) == TotalOf(LAMBDA j : w[j], last, since)
+\* @type: (Int -> Int) => Int;
+Sum(w) == TotalOf(LAMBDA j : w[j], 0, 0)
 
 (* ---- manager.go: the price rule on the window total ---- *)
 
@@ -72,6 +81,9 @@ NextFromTotal(prev, total, target, denom, min, since) ==
 \* @type: (Int, Int -> Int, Int, Int, Int, Int, Int) => Int;
 NextPrice(prev, w, last, target, denom, min, since) ==
   NextFromTotal(prev, Total(w, last, since), target, denom, min, since)
+\* @type: (Int, Int => Int, Int, Int, Int, Int, Int) => Int;
+NextPriceOf(prev, Get(_), last, target, denom, min, since) ==
+  NextFromTotal(prev, TotalOf(Get, last, since), target, denom, min, since)
 
 (* ---- Manager.ComputeNext: elapsed whole seconds as the code computes them ---- *)
 (* lastSec is the stored (unsigned) second, nowMs the block time in milliseconds (>= 0);               *)
